@@ -1,5 +1,6 @@
 import SafeNet.Driver.Util
 import SafeNet.Model.Parsers
+import SafeNet.Driver.ParsersExt
 /-! Line-protocol driver for the C17 parser models (`drv_parsers`): one output line per op line of the
 harness binaries `parsers` (hlight), `cliparsers` (hnode), `mgrparsers` (hmgr). -/
 namespace SafeNet.Driver.Parsers
@@ -220,7 +221,7 @@ def stepLine (ws : List String) : String :=
         | .err _ => "err"
         | .panic _ => "panic")
     | _, _, _ => "bad-op"
-  | _ => "bad-op"
+  | other => (ParsersExt.stepLine other).getD "bad-op"
 
 def step (_ : Unit) (ws : List String) : Unit × String := ((), stepLine ws)
 
@@ -260,6 +261,6 @@ def searchCandidates : List String := Id.run do
       if (leastFaulty [(s, f)]).isPanic then out := out ++ [s!"leastfaulty {s}:{f}"]
       if (loadCache 1 10 (some [[(s, f, false), (s, f, false), (s, f, false)]])).isPanic then
         out := out ++ [s!"loadcache 1 10 gen {s}:{f}:0,{s}:{f}:0,{s}:{f}:0"]
-  return out
+  return out ++ ParsersExt.searchCandidates
 
 end SafeNet.Driver.Parsers
